@@ -105,7 +105,7 @@ theorem exec_once_at_most_once_fails : ∃ s, Reach false 2 s ∧ ¬ s.runs ≤ 
 /-- non-vacuity of the partial theorem: a 2-thread run where one thread executes the
     listeners and the other finds the flag set -/
 example : (run true (init 2)
-    [(0, .rdFlag false), (1, .rdFlag false), (0, .init 0), (1, .rdMutex (some 0)), (0, .acq),
+    [(0, .rdFlag false), (1, .rdFlag false), (0, .init 0), (1, .rdMutex (some 0)), (1, .rdMutexRet 0), (0, .acq),
      (0, .rdFlag2 false), (0, .ret), (0, .setFlag), (0, .rel), (1, .acq), (1, .rdFlag2 true),
      (1, .rel)]).map (fun s => (s.runs, s.flag, s.pcs)) = some (1, true, [Pc.done, Pc.done]) := by
   decide
